@@ -72,21 +72,16 @@ func verifIsPrefix(p, s []byte) bool {
 }
 
 // verif_C01_stream: whole streams of up to L arbitrary octets followed by
-// end of input, read through dataReader.Read with a buffer size chosen per
-// run and a segment size chosen per run. Differential against refUnstuff.
+// end of input, read through dataReader.Read with every combination of segment size
+// {unsegmented, 1, 2} and buffer size {1, 2, 3, L+2}. Differential against refUnstuff.
 func verif_C01_stream() {
-	L := verifBound(5, 7)
+	L := verifBound(6, 8)
 	stream := nondetBytes(L)
-	seg := 0
-	bufsz := 0
-	switch verifChoice(3) {
-	case 0:
-		seg, bufsz = 0, L+2
-	case 1:
-		seg, bufsz = 1, 1
-	case 2:
-		seg, bufsz = 2, 2
-	}
+	// network segmentation and the backend's buffer size vary independently
+	// (a small buffer over a fully buffered stream is what a block-reading
+	// backend behind a fast network sees)
+	seg := verifChoice(3)
+	bufsz := []int{1, 2, 3, L + 2}[verifChoice(4)]
 	src := &verifSrc{data: stream, seg: seg, final: io.EOF}
 	br := bufio.NewReader(src)
 	dr := &dataReader{r: br}
@@ -110,7 +105,7 @@ func verif_C01_stream() {
 		verifAssert(consumed == end, "C01.consumed-through-marker")
 	} else {
 		verifReach("C01.nomarker")
-		verifAssert(err == io.ErrUnexpectedEOF, "C07.no-eof-without-marker")
+		verifAssert(err == io.ErrUnexpectedEOF, "C01.no-eof-without-marker")
 		verifAssert(verifIsPrefix(got, body), "C01.partial-is-prefix")
 	}
 }
